@@ -5,6 +5,7 @@ package main
 import (
 	"go/constant"
 	"go/token"
+	"sort"
 	"strings"
 
 	"golang.org/x/tools/go/ssa"
@@ -89,17 +90,22 @@ func (w *Walker) Reach(fn *ssa.Function, start *ssa.BasicBlock, idx int, target 
 		i    int
 		prev *pathNode
 		pred *ssa.BasicBlock
+		facts string
 	}
-	type skey struct{ b, pred *ssa.BasicBlock }
+	type skey struct {
+		b, pred *ssa.BasicBlock
+		facts   string
+	}
 	seen := map[skey]bool{}
-	stack := []item{{start, idx, nil, nil}}
+	corr := correlatedConds(fn)
+	stack := []item{{start, idx, nil, nil, ""}}
 	first := true
 	for len(stack) > 0 {
 		it := stack[len(stack)-1]
 		stack = stack[:len(stack)-1]
 		phiC := ownPhiCond(it.b)
 		if !first || it.i == 0 {
-			k := skey{it.b, nil}
+			k := skey{it.b, nil, it.facts}
 			if phiC != nil {
 				k.pred = it.pred
 			}
@@ -151,11 +157,32 @@ func (w *Walker) Reach(fn *ssa.Function, start *ssa.BasicBlock, idx int, target 
 				}
 			}
 		}
+		var cc *corrCond
+		if len(it.b.Succs) == 2 && len(it.b.Instrs) > 0 {
+			if iff, ok := it.b.Instrs[len(it.b.Instrs)-1].(*ssa.If); ok {
+				cc = corr[iff]
+			}
+		}
 		for _, s := range succs {
 			if w.Removed[edge{it.b, s}] {
 				continue
 			}
-			stack = append(stack, item{s, 0, node, it.b})
+			facts := it.facts
+			if cc != nil {
+				// truth of the canonical condition on this edge
+				truth := (s == it.b.Succs[0]) != cc.neg
+				if it.b.Succs[0] == it.b.Succs[1] {
+					truth = true
+				}
+				known, val := factLookup(facts, cc.key)
+				if known && val != truth && it.b.Succs[0] != it.b.Succs[1] {
+					continue // contradicts an earlier test of the same stable condition on this path
+				}
+				if !known {
+					facts = factAdd(facts, cc.key, truth)
+				}
+			}
+			stack = append(stack, item{s, 0, node, it.b, facts})
 		}
 	}
 	return Hit{}, false
@@ -287,4 +314,122 @@ func ownPhiCond(b *ssa.BasicBlock) *ssa.Phi {
 		return phi
 	}
 	return nil
+}
+
+// ---- correlated conditions --------------------------------------------------------------------------
+// A condition over parameters and fields that contains no call and is not assigned in the function, and that is
+// tested by two or more branches, has the same truth value at each test on one path. The walker prunes paths
+// that take contradictory edges (the classic `if x == nil && a {…} else if x != nil && b {…}` idiom).
+
+type corrCond struct {
+	key string
+	neg bool // the If's condition is the negation of the canonical key
+}
+
+var corrCache = map[*ssa.Function]map[*ssa.If]*corrCond{}
+
+func canonCond(v ssa.Value) (string, bool, bool) {
+	neg := false
+	for {
+		if u, ok := v.(*ssa.UnOp); ok && u.Op == token.NOT {
+			v = u.X
+			neg = !neg
+			continue
+		}
+		break
+	}
+	if b, ok := v.(*ssa.BinOp); ok && isCmp(b.Op) {
+		x, y := pathOf(b.X), pathOf(b.Y)
+		switch b.Op {
+		case token.EQL:
+			return x + " == " + y, neg, true
+		case token.NEQ:
+			return x + " == " + y, !neg, true
+		case token.LSS:
+			return x + " < " + y, neg, true
+		case token.GEQ:
+			return x + " < " + y, !neg, true
+		case token.GTR:
+			return x + " > " + y, neg, true
+		case token.LEQ:
+			return x + " > " + y, !neg, true
+		}
+	}
+	if _, ok := v.(*ssa.Phi); ok {
+		return "", false, false
+	}
+	return pathOf(v), neg, true
+}
+
+func correlatedConds(fn *ssa.Function) map[*ssa.If]*corrCond {
+	if m, ok := corrCache[fn]; ok {
+		return m
+	}
+	var stores []string
+	for _, b := range fn.Blocks {
+		for _, in := range b.Instrs {
+			switch st := in.(type) {
+			case *ssa.Store:
+				stores = append(stores, deref(pathOf(st.Addr)))
+			case *ssa.MapUpdate:
+				stores = append(stores, pathOf(st.Map))
+			}
+		}
+	}
+	byKey := map[string][]*ssa.If{}
+	info := map[*ssa.If]*corrCond{}
+	for _, b := range fn.Blocks {
+		if len(b.Instrs) == 0 {
+			continue
+		}
+		iff, ok := b.Instrs[len(b.Instrs)-1].(*ssa.If)
+		if !ok {
+			continue
+		}
+		key, neg, ok := canonCond(iff.Cond)
+		if !ok || strings.Contains(key, "call:") || strings.Contains(key, "phi") || strings.Contains(key, "<-") || strings.Contains(key, "alloc:") || strings.Contains(key, "…") {
+			continue
+		}
+		stable := true
+		for _, s := range stores {
+			if s != "" && strings.Contains(key, s) {
+				stable = false
+				break
+			}
+		}
+		if !stable {
+			continue
+		}
+		info[iff] = &corrCond{key, neg}
+		byKey[key] = append(byKey[key], iff)
+	}
+	out := map[*ssa.If]*corrCond{}
+	for k, ifs := range byKey {
+		if len(ifs) >= 2 {
+			for _, i := range ifs {
+				out[i] = info[i]
+			}
+		}
+		_ = k
+	}
+	corrCache[fn] = out
+	return out
+}
+
+func factLookup(facts, key string) (known, val bool) {
+	if i := strings.Index(facts, "\x00"+key+"\x01"); i >= 0 {
+		return true, facts[i+len(key)+2] == 'T'
+	}
+	return false, false
+}
+
+func factAdd(facts, key string, val bool) string {
+	v := "F"
+	if val {
+		v = "T"
+	}
+	parts := strings.Split(facts, "\x02")
+	parts = append(parts, "\x00"+key+"\x01"+v)
+	sort.Strings(parts)
+	return strings.Join(parts, "\x02")
 }
